@@ -12,9 +12,15 @@
    (Model/Loop.v) therefore never look at its content - the trace of a Loop is a function of
    the object alone.  That the real code neither reads old buffer content nor lets the buffer
    share memory with an object is what the history cases of the c12 stream observe (one buffer
-   handed to every Loop of a history; dump of every object after every step). *)
+   handed to every Loop of a history; dump of every object after every step).
+
+   The caller's RESULT buffer (the *any handed to GetTo) is different: what GetTo answers IS the
+   content of that buffer after the call, and a call that stores nothing leaves in it what the
+   caller had there - the answer of an earlier call.  The second half of this file ([brun]) threads
+   that buffer through a history next to the store: a step is a call with buffers of its own
+   ([HCall], all there is in [run]) or a GetTo with the history's result buffer ([HGetTo]). *)
 From Coq Require Import List Bool String Ascii ZArith Arith.
-From Verif Require Import Util Node Value Outcome Api.
+From Verif Require Import Util Node Value Outcome Get Api.
 Import ListNotations.
 
 Definition obj := (node * arg)%type.
@@ -46,3 +52,59 @@ Fixpoint run (s : store) (h : list step) : list (option answer * store) :=
 Definition alone (s : store) (st : step) : option answer := fst (exec_at s st).
 
 Definition reads_only (h : list step) : bool := forallb (fun st => is_read (snd st)) h.
+
+(* ---------- histories that share ONE caller-owned result buffer ----------
+   The buffer holds what Model/Get.v calls the content of *buf: nothing yet (None), or a reference
+   (for the stream: the caller's sentinel, or what an earlier GetTo of the history stored - a
+   reference into an object of the store, or to a local copy).  A reference records the value of
+   its place when it was made: faithful as long as no step of the history writes, which is what the
+   theorems about read histories establish and the only histories the stream runs. *)
+Inductive hcall :=
+| HCall (c : call)                 (* a call whose buffers are its own (a fresh result buffer per GetTo) *)
+| HGetTo (path : list string).     (* GetTo(object, rb, path...) with rb the result buffer of the history *)
+
+Definition bstep := (nat * hcall)%type.
+
+Definition call_of (rb : option ref) (hc : hcall) : call :=
+  match hc with HCall c => c | HGetTo path => KGetTo path rb end.
+
+(* the result buffer after the step: GetTo's answer is the content of the buffer; a call that dies
+   on the way has stored nothing *)
+Definition rbuf_after (rb : option ref) (hc : hcall) (a : option answer) : option ref :=
+  match hc, a with
+  | HGetTo _, Some (AnsRef (Ret b _)) => b
+  | HGetTo _, Some (AnsRef (Fall b)) => b
+  | _, _ => rb
+  end.
+
+Definition bexec_at (s : store) (rb : option ref) (st : bstep) : option answer * store :=
+  exec_at s (fst st, call_of rb (snd st)).
+
+(* per step: the answer, the store and the result buffer after it *)
+Fixpoint brun (s : store) (rb : option ref) (h : list bstep) : list (option answer * store * option ref) :=
+  match h with
+  | [] => []
+  | st :: r =>
+    let x := bexec_at s rb st in
+    let rb' := rbuf_after rb (snd st) (fst x) in
+    (fst x, snd x, rb') :: brun (snd x) rb' r
+  end.
+
+(* the step alone on the store [s], handed a result buffer with the content [rb] *)
+Definition balone (s : store) (rb : option ref) (st : bstep) : option answer := fst (bexec_at s rb st).
+
+(* every step alone on the store the history started from, the result buffer handed on from step to step *)
+Fixpoint btrace (s : store) (rb : option ref) (h : list bstep) : list (option answer * store * option ref) :=
+  match h with
+  | [] => []
+  | st :: r =>
+    let a := balone s rb st in
+    let rb' := rbuf_after rb (snd st) a in
+    (a, s, rb') :: btrace s rb' r
+  end.
+
+Definition hcall_read (hc : hcall) : bool := match hc with HCall c => is_read c | HGetTo _ => true end.
+Definition breads_only (h : list bstep) : bool := forallb (fun st => hcall_read (snd st)) h.
+
+(* a history of [run] is a history of [brun] that never hands the shared result buffer over *)
+Definition own_buffers (h : list step) : list bstep := map (fun st => (fst st, HCall (snd st))) h.
